@@ -312,6 +312,13 @@ func c01fixedPayloads() []string {
 		"_x005F_x0041_", "_x0041\x01", "_x0041\x01_", "__x0041_", "_x0041__x0042_", "_x_x0041_", "_x004_", "_x00411_", "_X0041_", "_x0041",
 		"x0041_", "_", "", " ", "\t", "\r", "\n", "\r\n", " a", "a ", "a\rb", "a\r\nb", "<&>\"'", "]]>", "&amp;", "&#xD;", "a\x00b", "\x1f",
 		"\x7f", "\u0080", "�", "\U0010FFFF", "퟿", "_x005F", "_x005F_x005F_", "_xFFFE_", "_xfffe_￾", "=1+1", "'quoted"}
+	// text that is a strict-OOXML namespace URL: the reader rewrites these URLs in a part's bytes
+	base = append(base, "see http://purl.oclc.org/ooxml/spreadsheetml/main for details",
+		"http://purl.oclc.org/ooxml/officeDocument/relationships", "http://purl.oclc.org/ooxml/officeDocument/relationships/image",
+		"x http://purl.oclc.org/ooxml/drawingml/main y", "http://purl.oclc.org/ooxml/officeDocument/docPropsVTypes",
+		"http://purl.oclc.org/ooxml/officeDocument/extendedProperties", "http://purl.oclc.org/ooxml/officeDocument/relationships/chart",
+		"http://purl.oclc.org/ooxml/officeDocument/relationships/comments", "http://purl.oclc.org/ooxml/officeDocument/relationships/officeDocument",
+		"http://schemas.openxmlformats.org/spreadsheetml/2006/main")
 	for _, n := range []int{32766, 32767, 32768} {
 		base = append(base, strings.Repeat("x", n), strings.Repeat("é", n), strings.Repeat("x", n-7)+"_x0041_", strings.Repeat("y", n-1)+" ",
 			strings.Repeat("z", n-2)+"\x01a", " "+strings.Repeat("😀", n-1))
@@ -772,7 +779,10 @@ func (h *c01hist) step() {
 		h.note("SetCellRichText", f.SetCellRichText(sh, c, runs), "SetCellRichText(%s,%s,%d runs %s)", sh, c, len(runs), c01q(runs[0].Text+runs[1].Text))
 	case k < 59:
 		c, _, _ := h.cell(sh)
-		if rng.Bool() {
+		if rng.Chance(25) {
+			u := "http://purl.oclc.org/ooxml/officeDocument/relationships/image"
+			h.note("SetCellHyperLink", f.SetCellHyperLink(sh, c, u, "External"), "SetCellHyperLink(%s,%s,%s)", sh, c, u)
+		} else if rng.Bool() {
 			h.note("SetCellHyperLink", f.SetCellHyperLink(sh, c, "https://example.com/?a=1&b=<2>", "External"), "SetCellHyperLink(%s,%s,external)", sh, c)
 		} else {
 			tip := "tip & <b>"
@@ -841,7 +851,7 @@ func (h *c01hist) step() {
 		h.note("SetColStyle", f.SetColStyle(sh, n1+":"+n2, id), "SetColStyle(%s,%s:%s,%d)", sh, n1, n2, id)
 	case k < 91:
 		name := rng.Pick([]string{"Name1", "Amount", "_x0041_", "Taxé", "rng.2"})
-		dn := &xl.DefinedName{Name: name, RefersTo: sh + "!$A$1:$B$" + strconv.Itoa(rng.Range(1, 9)), Comment: rng.Pick([]string{"", "c & <d>", " lead"})}
+		dn := &xl.DefinedName{Name: name, RefersTo: sh + "!$A$1:$B$" + strconv.Itoa(rng.Range(1, 9)), Comment: rng.Pick([]string{"", "c & <d>", " lead", "http://purl.oclc.org/ooxml/spreadsheetml/main"})}
 		if rng.Bool() {
 			dn.Scope = sh
 		}
@@ -1245,6 +1255,8 @@ func runC01(r *Run, rng *Rng, replay string) {
 	c01colsPhase(r, rng, nCols)
 	c01cellTextPhase(r, rng, nCols/12)
 	c01putsPhase(r, rng, nCols/3)
+	c01colseqPhase(r, rng, nCols/3)
+	c01rowseqPhase(r, rng, nCols/4)
 	lap("witnesses+attribute histories+cols")
 	// 1. fixed boundary payloads through every string op
 	for i, s := range c01fixedPayloads() {
@@ -1428,6 +1440,10 @@ func c01replay(r *Run, path string) {
 			c01afterSave(r)
 		case "farcell":
 			c01farCell(r)
+		case "rowseq":
+			c01rowseq(r, rest)
+		case "colseq":
+			c01colseq(r, rest)
 		case "puts":
 			c01puts(r, rest)
 		case "setint":
